@@ -27,7 +27,7 @@ def expected_tx(x, d):
     return NS.phys(nh, pipe, False)
 
 
-def o1_sender(ctx, lx, ld, n, frag, fail, mlvl=False):
+def o1_sender(ctx, lx, ld, n, frag, fail, mlvl=False, toggle=False):
     from circuitpython_nrf24l01.network.structs import RF24NetworkHeader
     clock = fresh_env(ctx)
     radio, node, x = build_node(ctx, clock, "net", lx)
@@ -35,6 +35,8 @@ def o1_sender(ctx, lx, ld, n, frag, fail, mlvl=False):
         node.multicast_level = ctx.int("multicast_level", 0, 4)
     d = sym_addr(ctx, "D", ld)
     ctx.assume(d != x)
+    if toggle:  # fragmentation switched off and on again (the documented way back): long messages travel as before
+        node.fragmentation = not frag
     node.fragmentation = frag
     total = max(1, (n + 23) // 24)
     uids = []
@@ -252,6 +254,9 @@ def jobs(tier):
             out.append(Job("O1-sender-step", o1_sender, dict(lx=lx, ld=ld, n=n, frag=True, fail=False), cost=3 + n // 24))
     for n in (0, 24):
         out.append(Job("O1-sender-step", o1_sender, dict(lx=2, ld=1, n=n, frag=False, fail=False), cost=3))
+    for lx, ld, n in ((1, 2, 25), (2, 0, 144), (0, 3, 49)):
+        out.append(Job("O1-sender-step-after-toggling-fragmentation", o1_sender, dict(lx=lx, ld=ld, n=n, frag=True, fail=False, toggle=True), cost=8))
+    out.append(Job("O1-sender-step-after-toggling-fragmentation", o1_sender, dict(lx=2, ld=1, n=24, frag=False, fail=False, toggle=True), cost=4))
     for n in (25, 72, 144):
         out.append(Job("O1-sender-step-failing-frame", o1_sender, dict(lx=1, ld=2, n=n, frag=True, fail=True), cost=30))
     roles = ("routing", "net", "mesh")
